@@ -180,6 +180,12 @@ func TestVerif_C07(t *testing.T) {
 	if t.Failed() {
 		return
 	}
+	if !vfDictSweep(t, "C07", "enum", vfDictLits, func(tok string) []c07Case {
+		return []c07Case{{X: vfB(tok)}, {X: vfB(tok + " and then plain text\n")}, {X: vfB("text first, then " + tok + "\n")}, {X: vfB(tok + "\x00"), Limit: uint32(len(tok))},
+			{X: vfB(tok + " caf\xe9 \x1b[0m"), Reader: true, PrevLimit: 1}}
+	}, c07Check, "each literal alone, before text, after text, before a NUL beyond the limit, before Latin-1 text with ESC") {
+		return
+	}
 	if vfOnlySub("enum") {
 		vfRun(t, vfSub[c07Case]{Prop: "C07", Name: "enum", Check: c07Check})
 		if !vfReplayMode() && !t.Failed() {
